@@ -16,6 +16,7 @@ import json
 import os
 import random
 import re
+import shutil
 import subprocess
 import sys
 import time
@@ -246,6 +247,18 @@ def forbidden_scan(pid=None):
 
 
 # --------------------------------------------------------------------------- builds
+def _evict_old(paths, keep_s=3 * 3600):
+    """superseded cached executables are removed only once they are older than keep_s: a concurrent run of the same
+    check (other tier, other agent, vp check while an edit is in progress) may still be executing one of them"""
+    now = time.time()
+    for old in paths:
+        try:
+            if now - old.stat().st_mtime > keep_s:
+                old.unlink()
+        except OSError:
+            pass
+
+
 def build_driver(pid):
     """extracted model (+spec) + helpers + property driver -> native executable"""
     model = COQ / f"{pid}_model.ml"
@@ -259,9 +272,8 @@ def build_driver(pid):
     exe = outdir / f"driver-{key}"
     if exe.exists():
         return exe
-    for old in outdir.glob("driver-*"):
-        old.unlink()
-    wd = outdir / "ocaml"
+    _evict_old(outdir.glob("driver-*"))
+    wd = outdir / f"ocaml-{os.getpid()}"   # per process: concurrent builds of one driver do not share all.ml
     wd.mkdir(exist_ok=True)
     with open(wd / "all.ml", "w") as f:
         for p in parts:
@@ -269,9 +281,11 @@ def build_driver(pid):
             f.write(p.read_text())
             f.write("\n")
     rc, out, err = sh(["ocamlfind", "ocamlopt", "-package", "zarith", "-linkpkg", "-w", "-a", "-unsafe",
-                       "-inline", "100", "all.ml", "-o", str(exe)], cwd=wd, timeout=900)
+                       "-inline", "100", "all.ml", "-o", str(exe) + f".tmp{os.getpid()}"], cwd=wd, timeout=900)
     if rc != 0:
         raise RuntimeError("driver build failed:\n" + (out + err)[-4000:])
+    os.replace(str(exe) + f".tmp{os.getpid()}", exe)
+    shutil.rmtree(wd, ignore_errors=True)
     return exe
 
 
@@ -341,13 +355,15 @@ def build_harness(pid, name, src, flags, compiler="g++"):
     exe = outdir / f"h-{name}-{key}"
     if exe.exists():
         return exe, ""
-    for old in outdir.glob(f"h-{name}-*"):
-        old.unlink()
+    _evict_old(outdir.glob(f"h-{name}-*"))
+    tmp = outdir / f".tmp-{os.getpid()}-{name}-{key}"
     cmd = [compiler] + BASE_FLAGS + list(flags) + [f"-I{REPO}/include", f"-I{ROOT}/harness",
-                                                    f"-I{ROOT}/props/{pid}", str(srcp), "-o", str(exe)]
+                                                    f"-I{ROOT}/props/{pid}", str(srcp), "-o", str(tmp)]
     rc, out, err = sh(cmd, timeout=1800)
     if rc != 0:
+        tmp.unlink(missing_ok=True)
         return None, (out + err)[-6000:]
+    os.replace(tmp, exe)   # atomic: a concurrent run never sees a half-written executable
     return exe, ""
 
 
